@@ -11,7 +11,8 @@ ID = 'C06'
 SHARDS_QUICK = 4
 RULE = ('Hypothesis documents (profile "full" with extra split/join weight, up to 4 spines and 3 sub-spines per spine) x '
         'EVERY subset of spine ids (2^n), EVERY subset of the spine types present, and for each document 6 drawn '
-        '(ids, types) combinations given together (plus absent ids / absent types).  Oracle: the column -> spine map of '
+        '(ids, types) combinations given together (plus absent ids / absent types), passed as list, tuple, set or '
+        'frozenset in turn.  Oracle: the column -> spine map of '
         'kv/spine.py applied to dumps(doc): unselected columns deleted, all-null rows dropped, text equality; '
         'kernpy.spine_types(doc, headers) must equal the first line of that projection ([] for no headers); every third '
         'selection is also exported with an Exporter that exported other documents before, with an ExportOptions object '
@@ -63,10 +64,12 @@ def check(case):
     def one(ids, tys):
         nonlocal evals
         kw = {}
+        # the selections are documented as Iterable / Sequence: lists, tuples and sets are used in turn
+        shape = (list, tuple, set, frozenset, list)[evals % 5]
         if ids is not None:
-            kw['spine_ids'] = list(ids)
+            kw['spine_ids'] = shape(ids)
         if tys is not None:
-            kw['spine_types'] = list(tys)
+            kw['spine_types'] = (list, tuple, list, set)[evals % 4](tys)
         got = K.dumps(kdoc, **kw)
         evals += 1
         if evals % 3 == 0 and K.via_primed(primed, kdoc, **kw) != got:
@@ -100,7 +103,7 @@ def check(case):
     for r in range(0, len(present) + 1):
         for sub in itertools.combinations(present, r):
             exp = one(None, list(sub))
-            st_ = kp.spine_types(kdoc, list(sub))
+            st_ = kp.spine_types(kdoc, tuple(sub) if evals % 2 else list(sub))
             evals += 1
             first = exp.split('\n')[0].split('\t') if exp else []
             if st_ != first:
